@@ -945,6 +945,26 @@ class OmniParser(PVLParser):
             pass
         return super().parse_around_equals(tokens)
 
+    # The first token of the value parsed last, and whether a statement
+    # delimiter has closed its statement.
+    _value_token = None
+    _value_delimited = False
+
+    def parse_value(self, tokens: abc.Generator):
+        """Extends the parent function to note the token that begins the
+        value: a decoded string no longer shows whether it was quoted.
+        """
+        t = next(tokens)
+        tokens.send(t)
+        self._value_token = t
+        self._value_delimited = False
+        return super().parse_value(tokens)
+
+    def parse_statement_delimiter(self, tokens: abc.Generator) -> bool:
+        """Extends the parent function to note that a delimiter was there."""
+        self._value_delimited = super().parse_statement_delimiter(tokens)
+        return self._value_delimited
+
     def parse(self, s: str):
         """Extends the parent function.
 
@@ -957,6 +977,8 @@ class OmniParser(PVLParser):
         nodash = re.sub(r"-[\n\r\f]\s*", "", s)
         self.doc = nodash
         self._equals_pos = 0
+        self._value_token = None
+        self._value_delimited = False
 
         return super().parse(nodash)
 
@@ -982,7 +1004,18 @@ class OmniParser(PVLParser):
                 last_token = Token(
                     last_v, grammar=self.grammar, decoder=self.decoder
                 )
-                if last_token.is_parameter_name():
+                if (
+                    last_token.is_parameter_name()
+                    # A quoted string cannot be a parameter name, and neither
+                    # can the placeholder of an earlier empty value or a
+                    # value whose statement a delimiter has closed.
+                    and not isinstance(last_v, EmptyValueAtLine)
+                    and not self._value_delimited
+                    and not (
+                        self._value_token is not None
+                        and self._value_token.is_quoted_string()
+                    )
+                ):
                     # Fix the previous entry
                     module.pop()
                     module.append(last_k, self._empty_value())
